@@ -3,6 +3,7 @@ package prop
 
 import (
 	"verif/internal/core"
+	"verif/prop/c01"
 	"verif/prop/c02"
 	"verif/prop/c03"
 	"verif/prop/c04"
@@ -29,6 +30,7 @@ type Prop struct {
 
 // All maps property id to its check.
 var All = map[string]Prop{
+	"C01": {Level: "model_checking", Check: c01.Check, Replay: c01.Replay},
 	"C02": {Level: "model_checking", Check: c02.Check, Replay: c02.Replay},
 	"C03": {Level: "model_checking", Check: c03.Check, Replay: c03.Replay},
 	"C04": {Level: "model_checking", Check: c04.Check, Replay: c04.Replay},
